@@ -108,7 +108,8 @@ func checkC20(w *World, r *Report) {
 	}
 	r.Anchor("exec handler constructor", FuncName(mk))
 	hname := FuncName(handler)
-	res := w.EnumPaths(handler, EnumOpts{})
+	// (helpers that build the command or spawn the watcher are spliced in)
+	res := w.EnumPaths(handler, EnumOpts{Inline: true, MaxPaths: 20000})
 	r.Count("paths", len(res.Paths))
 
 	// ---- PGID + WAIT on every path that starts a command
@@ -202,10 +203,77 @@ func checkC20(w *World, r *Report) {
 			}
 		}
 	})
+	// … or a closure that a helper of the handler launches: the helper's parameters are then read as
+	// what the handler passes (wenv); a parameter that is the result of a pure helper of the timeout
+	// (`terminationFor(killTimeout)`) is evaluated beforehand, one case per path of that helper
+	var wenv map[*ssa.Parameter]ssa.Value
+	type tcase struct {
+		calls       map[*ssa.Call][]ssa.Value
+		nonPositive *bool
+	}
+	cases := []tcase{{}}
+	if watcher == nil {
+		for _, ci := range findCalls(handler, func(_ string, c *ssa.CallCommon) bool {
+			g := c.StaticCallee()
+			return g != nil && g.Blocks != nil && w.InModule(g)
+		}) {
+			host := ci.Common().StaticCallee()
+			allInstrs(host, func(in ssa.Instruction) {
+				g, ok := in.(*ssa.Go)
+				if !ok {
+					return
+				}
+				if cl := funcValue(g.Call.Value); cl != nil && cl.Parent() == host {
+					watcher = cl
+					wenv = map[*ssa.Parameter]ssa.Value{}
+					for i, prm := range host.Params {
+						if i < len(ci.Common().Args) {
+							wenv[prm] = w.Resolve(ci.Common().Args[i])
+						}
+					}
+				}
+			})
+		}
+		for _, v := range wenv {
+			hc, ok := v.(*ssa.Call)
+			if !ok {
+				continue
+			}
+			h := hc.Call.StaticCallee()
+			if h == nil || h.Blocks == nil || !w.InModule(h) || len(h.Params) != 1 || len(hc.Call.Args) != 1 || !w.pureFunc(h, 0) {
+				continue
+			}
+			if prm, ok := w.Resolve(hc.Call.Args[0]).(*ssa.Parameter); !ok || prm.Parent() != mk {
+				continue
+			}
+			cases = nil
+			for _, q := range w.EnumPaths(h, EnumOpts{}).Paths {
+				if q.End != "return" || len(q.RetVals) != 1 {
+					continue
+				}
+				var np *bool
+				for _, l := range q.Lits {
+					if l.Atom.Op == "<=" && l.Atom.L == "arg0" && l.Atom.R == "0" {
+						v := l.Val
+						np = &v
+					}
+				}
+				cases = append(cases, tcase{calls: map[*ssa.Call][]ssa.Value{hc: {q.RetVals[0]}}, nonPositive: np})
+			}
+		}
+	}
 	if watcher == nil {
 		r.Viol("escalation.kill", hname+": watcher goroutine", w.Pos(handler.Pos()), "the exec handler has no watcher closure")
 	} else {
-		wr := w.EnumPaths(watcher, EnumOpts{Inline: true})
+		var wpaths []*Path
+		caseOf := map[*Path]tcase{}
+		for _, tc := range cases {
+			for _, p := range w.EnumPaths(watcher, EnumOpts{Inline: true, Params: wenv, Calls: tc.calls}).Paths {
+				wpaths = append(wpaths, p)
+				caseOf[p] = tc
+			}
+		}
+		wr := EnumResult{Paths: wpaths}
 		r.Count("paths", len(wr.Paths))
 		okEsc := len(wr.Paths) > 0
 		why := ""
@@ -222,7 +290,7 @@ func checkC20(w *World, r *Report) {
 			if nilProcess {
 				continue
 			}
-			var nonPositive *bool
+			nonPositive := caseOf[p].nonPositive
 			for _, l := range p.Lits {
 				if l.Atom.Op == "<=" && l.Atom.L == timeoutAP && l.Atom.R == "0" {
 					v := l.Val
@@ -261,12 +329,20 @@ func checkC20(w *World, r *Report) {
 				if host := delayed.Parent(); host != nil && host != watcher && host != handler && host != mk {
 					for _, ci := range findCalls(watcher, func(_ string, c *ssa.CallCommon) bool { return c.StaticCallee() == host }) {
 						penv = map[*ssa.Parameter]ssa.Value{}
+						for k, v := range wenv {
+							penv[k] = v
+						}
+						saved := w.paramEnv
+						w.paramEnv = wenv // the watcher's own captured parameters are the handler's arguments
 						for i, prm := range host.Params {
 							if i < len(ci.Common().Args) {
 								penv[prm] = w.Resolve(ci.Common().Args[i])
 							}
 						}
+						w.paramEnv = saved
 					}
+				} else if wenv != nil {
+					penv = wenv
 				}
 				dr := w.EnumPaths(delayed, EnumOpts{Inline: true, Params: penv})
 				delayedOK = len(dr.Paths) > 0
